@@ -216,3 +216,58 @@ Example C16_ex_mapping :   (* self reference, 2-cycle, forward reference, hidden
         ("Upsert B on name", mkStep "B" "B" [("name", "name")] [mkLk "a" "A" None] []
                                     (Some "upsert") (Some "name") ["_sf_update_key = 'name'"])].
 Proof. vm_compute. reflexivity. Qed.
+
+(* ==================================================================================================
+   The input of the mapping generator, tied to the rows (theories/Interp.v, proofs/DepsP.v).
+
+   The theorems above take the recorded dependencies (Globals.intertable_dependencies) as an input.
+   Over the SF-core interpreter that input is itself characterised: every reference cell of every
+   row a run writes - from `reference`, nested objects, friends, forward references, random
+   references - has its (table, target table, field) triple recorded by the end of the task that
+   wrote it, so "a lookup if any emitted row held a reference in that field" can be read off the
+   rows; and nothing recorded is ever dropped (continued runs start from the dependencies of the
+   file, C05).
+   ================================================================================================== *)
+From SFV Require Import Interp.
+From SFV.P Require Import DepsP.
+
+Theorem C16_interp_written_references_recorded :
+  forall e stmts c k s0 s,
+    Interp.out s0 = [] -> iterations k e stmts c s0 = Ok s ->
+    forall row f U i, In row (Interp.out s) -> In (f, ORef U i) (snd row) ->
+                      In (fst row, U, f) (Interp.deps s).
+Proof. exact written_references_recorded. Qed.
+Print Assumptions C16_interp_written_references_recorded.
+
+Theorem C16_interp_written_references_recorded_fresh :
+  forall (r : recipe) k s,
+    run_fresh r k = Ok s ->
+    forall row f U i, In row (Interp.out s) -> In (f, ORef U i) (snd row) ->
+                      In (fst row, U, f) (Interp.deps s).
+Proof. exact written_references_recorded_fresh. Qed.
+Print Assumptions C16_interp_written_references_recorded_fresh.
+
+(* the invariant behind it, for every task of the evaluator: recorded dependencies only grow, and
+   "every written reference cell is recorded" is preserved *)
+Theorem C16_interp_invariant_step :
+  forall fuel e tk s s' r,
+    run fuel e tk s = Ok (s', r) -> incl (Interp.deps s) (Interp.deps s') /\ (R s -> R s').
+Proof. exact run_deps. Qed.
+Print Assumptions C16_interp_invariant_step.
+
+Theorem C16_interp_dependencies_persist :
+  forall e stmts c k s0 s,
+    iterations k e stmts c s0 = Ok s -> incl (Interp.deps s0) (Interp.deps s).
+Proof. exact recorded_dependencies_persist. Qed.
+Print Assumptions C16_interp_dependencies_persist.
+
+(* non-vacuity: a forward reference, a nested object and a friend pointing back at its parent *)
+Example C16_interp_ex :
+  match run_fresh (mkRecipe 3 []
+          [SObj (Tpl "A" None None false [("b", FRef "B"); ("n", FNested (Tpl "C" None None false [] []))]
+                     [SObj (Tpl "D" None None false [("parent", FRef "A")] [])]);
+           SObj (Tpl "B" None None false [] [])] []) 2 with
+  | Ok s => Interp.deps s
+  | Err _ => []
+  end = [("A", "B", "b"); ("A", "C", "n"); ("D", "A", "parent")].
+Proof. vm_compute. reflexivity. Qed.
